@@ -61,7 +61,7 @@ macro_rules! format {
     };
 }
 
-#[derive(Clone, Copy, Debug, PartialEq, Eq)]
+#[derive(Clone, Copy, Debug, PartialEq, Eq, PartialOrd, Ord, Default)]
 pub struct Vlan(pub u32);
 impl Vlan {
     pub fn to_string(&self) -> String {
